@@ -361,6 +361,23 @@ def run(ctx):
                 break
         if len([v for v in ctx.violations if v['kind'] == 'ellipsis-enabled-relation']) > 2:
             break
+    # white space other than blank and tab at the end of an inner line (form feed, vertical tab, no-break space, separators) is text:
+    # only blanks and tabs are dropped at line ends
+    wp = ['page 1\x0c\nline a', 'page 1\nline a', 'x\x0b\ny', 'x\ny', 'a\xa0\nb', 'a\nb', 'u\x1c\nv', 'u\nv', 'k\u2028\nm', 'end', 'z']
+    wgots = sorted({'\n'.join(t) for n_t in (1, 2) for t in _it.product(wp, repeat=n_t)})
+    wwants = sorted({m.join(t) for t in _it.product(wp + [''], repeat=2) for m in ('...', ' ... ', '\n...\n')})
+    wwants = [t for t in wwants if t and t == t.strip() and '...' in t]
+    for w in wwants:
+        for g in wgots:
+            non += 1
+            exp = (g == w) or spec_ellmatch(g, w)
+            if bool(checker.check_output(g, w, strict_on)) != exp:
+                ctx.violation('ellipsis-enabled-relation', {
+                    'what': "with ELLIPSIS on and every other leniency off check_output is %s, the wildcard relation says %s (white space other than blank/tab at line ends)" % (not exp, exp),
+                    'got': g, 'want': w, 'theorem_or_correspondence': 'C06_ellipsis_iff lifted to check_output(+ELLIPSIS)'}, True)
+                break
+        if len([v for v in ctx.violations if v['kind'] == 'ellipsis-enabled-relation']) > 2:
+            break
     ctx.evaluations += non
     ctx.count('enabled_relation_pairs', non)
     # ---- end to end: the flag as doctests switch it (every directive spelling, inline and block), on real DocTest runs
